@@ -10,7 +10,8 @@ TRANSPARENT = re.compile(
     r"^<.* as core::borrow::Borrow(Mut)?<.*>>::borrow(_mut)?$|"
     r"^<.* as core::ops::try_trait::Try>::branch$|^alloc::string::String::as_str$|^alloc::vec::Vec::as_slice$|"
     r"^<.* as core::iter::traits::collect::IntoIterator>::into_iter$|^core::iter::traits::iterator::Iterator::(enumerate|peekable|by_ref)$|"
-    r"^core::slice::<impl \[T\]>::iter(_mut)?$|^<.* as alloc::borrow::ToOwned>::to_owned$")
+    r"^core::slice::<impl \[T\]>::iter(_mut)?$|^<.* as alloc::borrow::ToOwned>::to_owned$|"
+    r"^alloc::slice::<impl \[T\]>::(to_vec|into_vec)$|^alloc::vec::Vec::(as_mut_slice|into_boxed_slice)$")
 
 
 class Origin:
@@ -60,7 +61,7 @@ KEEP_SELECTORS = re.compile(
     r"Clone>::clone$|^core::clone::Clone::clone$|Deref(Mut)?>::deref(_mut)?$|Borrow(Mut)?<.*>>::borrow(_mut)?$|"
     r"^core::option::Option::(as_ref|as_mut|cloned|copied|as_deref|as_deref_mut|take|ok_or|ok_or_else)$|"
     r"^core::result::Result::(as_ref|as_mut|ok|cloned|copied)$|Try>::branch$|ToOwned>::to_owned$|"
-    r"(AsRef|AsMut)<.*>>::(as_ref|as_mut)$")
+    r"(AsRef|AsMut)<.*>>::(as_ref|as_mut)$|^alloc::slice::<impl \[T\]>::(to_vec|into_vec)$")
 
 
 def origins(fn, op, depth=10, through_calls=True, _seen=None, visit=None, _pend=()):
